@@ -65,6 +65,7 @@ func C05(p *load.Prog, r *oblig.Run) {
 	r.Rule("R05.b", "an end-of-range bound is rolled forward by exactly one unit of its finest known component and then reduced by one nanosecond; other bounds are not adjusted", 4)
 	r.Rule("R05.c", "before/after/minimum/maximum compare Years() of the right ends in the right direction", 6)
 	c05ZeroTime(p, r)
+	c05LeapRule(p, r)
 	tm := p.Method(load.PkgRoot, "Date", "Time")
 	if tm == nil || len(tm.Blocks) == 0 {
 		r.Add("R05.a", "anchor", "-", "anchor").Unknown("Date.Time not found")
